@@ -204,7 +204,9 @@ class Gate(dict):
         if self.name in CLIFFORD_GATES:
             return True
         elif self.name in {"RX", "RY", "RZ", "PHASE"}:
-            return isclose(self.parameter % (pi / 2), 0, abs_tol=abs_tol)
+            # Distance to the closest multiple of pi/2 (a plain modulo misses angles just below a multiple)
+            remainder = self.parameter % (pi / 2)
+            return isclose(min(remainder, pi / 2 - remainder), 0, abs_tol=abs_tol)
         else:
             return False
 
